@@ -389,9 +389,19 @@ pub fn par_for(n: u64, chunk: u64, f: impl Fn(u64) + Sync) {
 /// parallel map over a slice preserving order of chunks: returns per-item outputs concatenated
 pub fn par_map<T: Sync, R: Send>(items: &[T], f: impl Fn(&T) -> R + Sync) -> Vec<R> {
     let n = items.len();
+    let chunk = (n / (n_threads() * 8)).max(1);
+    par_map_chunk(items, chunk, f)
+}
+
+/// one item per grab: for expensive, uneven items (engine searches)
+pub fn par_map_fine<T: Sync, R: Send>(items: &[T], f: impl Fn(&T) -> R + Sync) -> Vec<R> {
+    par_map_chunk(items, 1, f)
+}
+
+pub fn par_map_chunk<T: Sync, R: Send>(items: &[T], chunk: usize, f: impl Fn(&T) -> R + Sync) -> Vec<R> {
+    let n = items.len();
     let next = AtomicUsize::new(0);
     let threads = n_threads();
-    let chunk = (n / (threads * 8)).max(1);
     let results: Mutex<Vec<(usize, Vec<R>)>> = Mutex::new(Vec::new());
     std::thread::scope(|s| {
         for _ in 0..threads {
